@@ -57,6 +57,30 @@ print('CONFIRMED' if d > best + 1e-9 else 'NOT-CONFIRMED')
 """
 
 
+_REPLAY_RUN = """
+import numpy as np
+from types import SimpleNamespace as NS
+from hiten.algorithms.connections.backends import _ConnectionsBackend
+pu, ps, eps = np.array(%r), np.array(%r), %r
+req = NS(points_u=pu, points_s=ps, states_u=np.zeros((len(pu), 6)), states_s=np.zeros((len(ps), 6)), traj_indices_u=None,
+         traj_indices_s=None, eps=eps, dv_tol=1.0, bal_tol=0.5, metadata={})
+res = _ConnectionsBackend().run(req).results
+d = lambda i, j: float(np.hypot(*(pu[i] - ps[j])))
+bad = False
+got = {(r.index_u, r.index_s) for r in res}
+print("reported pairs", sorted(got))
+for (i, j) in got:
+    ok = d(i, j) <= eps and all(d(i, j) <= d(i, jj) for jj in range(len(ps)) if d(i, jj) <= eps) and all(d(i, j) <= d(ii, j) for ii in range(len(pu)) if d(ii, j) <= eps)
+    print((i, j), "distance", d(i, j), "mutually nearest within eps:", ok); bad = bad or not ok
+for i in range(len(pu)):
+    for j in range(len(ps)):
+        strict = d(i, j) <= eps and all(d(i, j) < d(i, jj) for jj in range(len(ps)) if jj != j) and all(d(i, j) < d(ii, j) for ii in range(len(pu)) if ii != i)
+        if strict and (i, j) not in got:
+            print("missing strictly mutual pair", (i, j)); bad = True
+print("CONFIRMED" if bad else "NOT-CONFIRMED")
+"""
+
+
 def _segments(chk):
     import hiten.algorithms.connections.backends as bk
     fn_label = BK + ":_closest_points_on_segments_2d"
@@ -203,6 +227,16 @@ def _run(chk):
             for r in XU + XS:
                 for k in (0, 1, 2, 5):
                     r[k] = zero
+        elif reduced == "collinear-geometry":
+            # 2x2 clouds on a line with ALL four abscissae and eps symbolic, states at rest: every ordering of the pairwise
+            # distances realisable on a line is explored - the mutual-nearest bookkeeping is decided for all of them
+            zero = X(z3.RealVal(0))
+            PU[0][0] = zero
+            for r in PU + PS:
+                r[1] = zero
+            for r in XU + XS:
+                for k in range(6):
+                    r[k] = zero
         elif reduced:
             # quick tier: collinear clouds with u0 at the origin, one free velocity component per state
             zero = X(z3.RealVal(0))
@@ -230,7 +264,8 @@ def _run(chk):
             sval = _np.empty(m, dtype=object); tval = _np.empty(m, dtype=object); valid = _np.zeros(m, dtype=bool)
             for k in range(m):
                 i, j = int(pairs[k, 0]), int(pairs[k, 1])
-                v = ctx.branch(z3.Bool("valid!%d_%d" % (i, j))) if (nu >= 2 and ns >= 2) else False
+                v = ctx.branch(z3.Bool("valid!%d_%d" % (i, j))) if (nu >= 2 and ns >= 2 and reduced != "collinear-geometry") \
+                    else False
                 valid[k] = v
                 u0[k], s0[k] = i, j
                 u1[k], s1[k] = ((i + 1) % nu, (j + 1) % ns) if v else (i, j)
@@ -281,6 +316,8 @@ def _run(chk):
                   z3.And([zv(res[k].delta_v) <= zv(res[k + 1].delta_v) for k in range(len(res) - 1)] +
                          [z3.BoolVal(all(once))]))
     configs = [(2, 2, False)] if chk.tier == "thorough" else [(1, 2, True), (2, 1, True), (2, 2, "fixed-geometry")]
+    if chk.tier == "thorough":
+        configs.append((2, 2, "collinear-geometry"))
     for nu_, ns_, red_ in configs:
         ex = Explorer(fn_label, max_paths=30000, timeout_ms=30000)
         st = {}
@@ -293,9 +330,50 @@ def _run(chk):
         for nm in ("run: every reported pair is within eps and mutually nearest among the pairs within eps",
                    "run: delta_v == ||v_u - v_s|| of the REPORTED states, <= dv_tol; ballistic iff delta_v <= bal_tol; reported "
                    "states / point as documented", "run: results sorted by delta_v; each (i,j) at most once"):
-            chk.obl(f"{nm} [{nu_}x{ns_} clouds{' fixed geometry' if red_ == 'fixed-geometry' else ''}]", f"K2 path VC ({nu_}x{ns_} clouds, symbolic coordinates / states / tolerances)",
+            chk.obl(f"{nm} [{nu_}x{ns_} clouds{' fixed geometry' if red_ == 'fixed-geometry' else ' collinear, symbolic abscissae' if red_ == 'collinear-geometry' else ''}]", f"K2 path VC ({nu_}x{ns_} clouds, symbolic coordinates / states / tolerances)",
                     [fn_label], "B1 z3 NRA (B2 cvc5 on unknown)", lambda nm=nm, explore=explore: explore().verdict(nm))
-        chk.cover(f"run [{nu_}x{ns_}]: return reachable", "run returns" in explore().covers)
+        chk.cover(f"run [{nu_}x{ns_}{'' if red_ in (True, False) else ' ' + red_}]: return reachable", "run returns" in explore().covers)
+
+    def th_enum():
+        """bounded-exhaustive: every placement of small clouds on an integer line, every radius: the reported index pairs are
+        exactly the mutually nearest pairs within the radius (ties: any nearest partner is accepted)"""
+        import itertools
+        n = 0
+        for nu, ns in ((2, 2), (3, 2), (2, 3)):
+            grid = range(5) if nu + ns == 4 else range(4)
+            for xs in itertools.product(grid, repeat=nu + ns):
+                pu = _np.array([[float(v), 0.0] for v in xs[:nu]])
+                ps = _np.array([[float(v) + 0.5, 0.0] for v in xs[nu:]])      # offset: no zero distances
+                for eps in (0.75, 1.75, 2.75):
+                    n += 1
+                    req = _Obj(points_u=pu, points_s=ps, states_u=_np.zeros((nu, 6)), states_s=_np.zeros((ns, 6)),
+                               traj_indices_u=None, traj_indices_s=None, eps=eps, dv_tol=1.0, bal_tol=0.5, metadata={})
+                    res = bk._ConnectionsBackend.run(_Obj(), req).results
+                    d = lambda i, j: abs(pu[i, 0] - ps[j, 0])
+                    for r in res:
+                        i, j = r.index_u, r.index_s
+                        ok = d(i, j) <= eps and all(d(i, j) <= d(i, jj) for jj in range(ns) if d(i, jj) <= eps) \
+                            and all(d(i, j) <= d(ii, j) for ii in range(nu) if d(ii, j) <= eps)
+                        if not ok:
+                            raise Refuted(f"reported pair (u{i}, s{j}) is not mutually nearest within eps",
+                                          f"pu={pu[:, 0].tolist()} ps={ps[:, 0].tolist()} eps={eps}: reported "
+                                          f"{[(q.index_u, q.index_s) for q in res]}",
+                                          inputs={"pu": pu.tolist(), "ps": ps.tolist(), "eps": eps}, replay=_REPLAY_RUN % (
+                                              pu.tolist(), ps.tolist(), eps))
+                    # completeness: a pair that is STRICTLY mutually nearest within eps must be reported
+                    got = {(r.index_u, r.index_s) for r in res}
+                    for i in range(nu):
+                        for j in range(ns):
+                            strict = d(i, j) <= eps and all(d(i, j) < d(i, jj) for jj in range(ns) if jj != j) \
+                                and all(d(i, j) < d(ii, j) for ii in range(nu) if ii != i)
+                            if strict and (i, j) not in got:
+                                raise Refuted(f"strictly mutually nearest pair (u{i}, s{j}) within eps is not reported",
+                                              f"pu={pu[:, 0].tolist()} ps={ps[:, 0].tolist()} eps={eps}: reported {sorted(got)}",
+                                              inputs={"pu": pu.tolist(), "ps": ps.tolist(), "eps": eps},
+                                              replay=_REPLAY_RUN % (pu.tolist(), ps.tolist(), eps))
+        return f"{n} cloud configurations"
+    chk.obl("run: reported index pairs == mutually nearest pairs within eps, for EVERY placement of 2x2, 3x2, 2x3 clouds on an "
+            "integer line and three radii", "K5 bounded-exhaustive", [fn_label], "B4 evaluation", th_enum)
 
     ref_label = BK + ":_refine_pairs_on_section"
 
